@@ -32,6 +32,8 @@ type seqTx struct {
 	signer int
 	txs    []kit.Tx
 	dup    bool // byte-identical copy of the most recently submitted entry (if any)
+	// malformed: the entry is well signed but is not a batch (outputs that sum to the input only modulo 2^64): it must be ignored altogether
+	malformed bool
 }
 
 type seqEvent struct {
@@ -75,6 +77,7 @@ func seqAlphabet(era drive.Era) []seqEvent {
 		{name: "S", rates: R1(), submit: one("A:usd>dcr,A:usd>eur", KA, kit.Conversion(A, "pUSD", U/10, "pDCR"), kit.Conversion(A, "pUSD", U/10, "pEUR"))},
 		{name: "W", rates: R1(), weak: true, submit: one("A:usd>eur", KA, kit.Conversion(A, "pUSD", U/10, "pEUR"))},
 		{name: "Bn", rates: R1(), burn: 7e8, submit: one("A:fct>usd", KA, kit.Conversion(A, "pFCT", 7e8, "pUSD"))},
+		{name: "Wr", rates: R1(), submit: []seqTx{{name: "A>wrap", signer: KA, malformed: true, txs: []kit.Tx{{From: A, Asset: "pUSD", Amount: U / 10, To: []kit.Out{{Addr: B, Amount: 1<<63 - 1}, {Addr: C, Amount: 1<<63 - 1}, {Addr: B, Amount: U/10 + 2}}}}}}},
 		{name: "X", rates: R2(), submit: one("A:usd>jpy,A:jpy>B", KA, kit.Conversion(A, "pUSD", U/10, "pJPY"), kit.Transfer(A, "pJPY", U/10*50, B))},
 	}
 	return ev
@@ -90,6 +93,7 @@ type refBatch struct {
 	order   int
 	hasConv bool
 	isDup   bool
+	malformed bool
 }
 
 type refModel struct {
@@ -101,6 +105,7 @@ type refModel struct {
 	byHash    map[string]*refBatch
 	holding   []*refBatch
 	lastRated uint32
+	ignored   []*refBatch
 	// observation of the real ledger used for the two inputs the model does not recompute:
 	// recorded rates (C12 owns them) and bank yields (C16 owns them)
 	unexplained []string
@@ -302,6 +307,10 @@ func (m *refModel) step(v *LedgerView, h uint32, graded bool, entries []*refBatc
 		m.lastRated = h
 	}
 	for _, b := range entries {
+		if b.malformed {
+			m.ignored = append(m.ignored, b)
+			continue // not a batch at all: no record, no effect
+		}
 		if m.recorded[b.hash] {
 			continue // a copy of an entry already seen is not a new entry
 		}
@@ -430,7 +439,7 @@ func seqPlanFor(thorough bool, prop string) []seqEra {
 
 var seqProps = []string{"C03", "C04", "C06", "C07", "C11", "C13", "C17"}
 
-const seqRule = " PLUS the sequence family: every sequence of block events (alphabet of 18: ungraded / graded at two rate vectors, transfers A>B and B>A, conversions submitted in graded and ungraded blocks, a two-entry block, byte-identical copies of the previous entry, a PEG request, a chained batch, conversions into pFCT and into a small asset, a conversion whose output the same batch spends, a block with too few price records, an FCT burn with a pFCT conversion) up to the stated depth from a funded state in several eras; after EVERY block the balances of the three actors and the miner and the status of every submitted entry are compared with a reference ledger kept in maps; this property reports the discrepancies of its class"
+const seqRule = " PLUS the sequence family: every sequence of block events (alphabet of 19: ungraded / graded at two rate vectors, transfers A>B and B>A, conversions submitted in graded and ungraded blocks, a two-entry block, byte-identical copies of the previous entry, a PEG request, a chained batch, conversions into pFCT and into a small asset, a conversion whose output the same batch spends, a block with too few price records, an FCT burn with a pFCT conversion, a transfer whose outputs equal its input only modulo 2^64) up to the stated depth from a funded state in several eras; after EVERY block the balances of the three actors and the miner and the status of every submitted entry are compared with a reference ledger kept in maps; this property reports the discrepancies of its class"
 
 // files of a package are initialised in file-name order, so the drivers are registered by now
 func init() {
@@ -558,6 +567,7 @@ func (m *refModel) clone() *refModel {
 		c.byHash[k] = v
 	}
 	c.holding = append([]*refBatch(nil), m.holding...)
+	c.ignored = append([]*refBatch(nil), m.ignored...)
 	return c
 }
 
@@ -629,7 +639,7 @@ func (x *seqX) step(n *seqNode, ei int, report bool) (*seqNode, bool) {
 		} else {
 			e = b.Tx(st.signer, st.txs...)
 			eh := fake.EntryHash(drive.IDs.TX, e)
-			rb = &refBatch{hash: hex.EncodeToString(eh[:]), name: st.name, txs: st.txs}
+			rb = &refBatch{hash: hex.EncodeToString(eh[:]), name: st.name, txs: st.txs, malformed: st.malformed}
 			for _, t := range st.txs {
 				if t.Conv != "" {
 					rb.hasConv = true
@@ -752,6 +762,12 @@ func (x *seqX) step(n *seqNode, ei int, report bool) (*seqNode, bool) {
 			if (got > 0) != (want > 0) && rb.hasConv && m.reason[eh] != "insufficient" {
 				tags["C13"] = true
 			}
+		}
+	}
+	for _, rb := range m.ignored {
+		if n := len(v.Batches[rb.hash]); n != 0 {
+			statusDiff = append(statusDiff, fmt.Sprintf("%s (submitted at %d) is not a valid batch, yet it is recorded %d times with status %d", rb.name, rb.height, n, v.Batches[rb.hash][0].Executed))
+			tags["C03"], tags["C17"] = true, true
 		}
 	}
 	for _, a := range actors {
